@@ -234,26 +234,36 @@ func vAbstractDict() *dict.Parser {
 		if e.Type < 0 {
 			continue
 		}
+		tname, ok := zzTypeNames[e.Type]
+		if !ok {
+			panic(zzDiverged{fmt.Sprintf("type id %d has no dictionary name", e.Type)})
+		}
+		if e.Name != "" {
+			// a definition looked up by name: emitted under its name (several names may share a code)
+			nkey := fmt.Sprintf("n%d/%s", e.App, e.Name)
+			if seen[nkey] {
+				continue
+			}
+			seen[nkey] = true
+			fmt.Fprintf(get(e.App), `<avp name="%s" code="%d" must="M" vendor-id="%d"><data type="%s"/></avp>`+"\n", e.Name, e.Code, e.Vendor, tname)
+			continue
+		}
 		key := fmt.Sprintf("a%d/%d/%d", e.App, e.Code, e.Vendor)
 		if seen[key] {
 			continue
 		}
 		seen[key] = true
-		tname, ok := zzTypeNames[e.Type]
-		if !ok {
-			panic(zzDiverged{fmt.Sprintf("type id %d has no dictionary name", e.Type)})
-		}
-		// a lookup by name elsewhere in the vector may denote the same definition
-		aname := e.Name
+		// a lookup by name elsewhere in the vector may denote the same definition: then that entry defines it
+		named := false
 		for _, o := range zzVec.Dict {
 			if !o.Cmd && o.Type >= 0 && o.Name != "" && o.App == e.App && o.Code == e.Code && o.Vendor == e.Vendor {
-				aname = o.Name
+				named = true
 			}
 		}
-		if aname == "" {
-			aname = fmt.Sprintf("A%d", i)
+		if named {
+			continue
 		}
-		fmt.Fprintf(get(e.App), `<avp name="%s" code="%d" must="M" vendor-id="%d"><data type="%s"/></avp>`+"\n", aname, e.Code, e.Vendor, tname)
+		fmt.Fprintf(get(e.App), `<avp name="A%d" code="%d" must="M" vendor-id="%d"><data type="%s"/></avp>`+"\n", i, e.Code, e.Vendor, tname)
 	}
 	var x bytes.Buffer
 	x.WriteString("<?xml version=\"1.0\" encoding=\"UTF-8\"?>\n<diameter>\n")
